@@ -1,4 +1,5 @@
 import Proofs.RenderInv
+import Proofs.FillPackets
 /-!
 # Proofs.RenderTotal — no renderer building block reaches a `.panic`
 -/
